@@ -17,6 +17,9 @@ def dict_values(rnd, n):
     for ks in keysets:
         d = {k: rnd.choice([0, "s", None, [1], {"x": 1}, {"x": 1, "y": 2}, {}]) for k in ks}
         out += [d, [d], (d,), {"outer": d}, [d, dict(list(d.items())[:1])]]
+        if len(ks) >= 2 and all(isinstance(k_, str) for k_ in ks):
+            halves = [{k_: 1} for k_ in ks]
+            out += [halves, [halves[:len(halves) // 2], halves[len(halves) // 2:]]]
         import collections
         dd = collections.defaultdict(int); dd.update(d); out.append(dd)
     return out
@@ -24,6 +27,14 @@ def dict_values(rnd, n):
 
 def func(x):
     return x
+
+
+def load(config):
+    return config
+
+
+def save(config, n):
+    return n
 
 
 def run(ctx):
@@ -66,6 +77,20 @@ def run(ctx):
                 H.violation("monkeytype.typing:get_dict_type", "td_ok:%s:%s" % (key, problems[:1]), "TypedDict size limit not honoured: " + "; ".join(problems[:2]), {"values": infer.short(g, 300), "k": k}, problems)
             else:
                 H.ok(key, nontrivial=bool(spec_c.td_nodes(t)) or k == 0, sample={"values": infer.short(g, 100), "k": k, "type": infer.short(t)})
+    H.section("class stubs of several functions", "two functions of one module sharing a parameter name, each called with a differently keyed dict within the limit; the rendered TypedDict classes have at most k fields each",
+              "k in {2, 3}")
+    for k in (2, 3):
+        t1, t2 = infer.infer(({"host": "h", "port": 1},), k), infer.infer(({"path": "p", "mode": "m"},), k)
+        text = build_module_stubs_from_traces([CallTrace(load, {"config": t1}, int), CallTrace(save, {"config": t2, "n": int}, int)], k)[load.__module__].render()
+        try:
+            classes = [n for n in ast.walk(ast.parse(text)) if isinstance(n, ast.ClassDef)]
+            worst = max([len([b for b in c.body if isinstance(b, ast.AnnAssign)]) for c in classes] or [0])
+        except SyntaxError:
+            worst = 0
+        if worst <= k:
+            H.ok("two-functions|k=%d" % k, sample={"k": k, "largest_class": worst})
+        else:
+            H.violation("monkeytype.stubs:build_module_stubs", "class-stub-too-large:k=%d:%d" % (k, worst), "a rendered TypedDict class has more than k fields", {"k": k}, {"stub": text[:900], "largest": worst})
     H.section("defaults", "Config.max_typed_dict_size() default is 0 for Config subclasses and DefaultConfig", "2 configs")
     class C(Config):
         def trace_store(self):
